@@ -24,7 +24,7 @@ func init() { register(c19{}) }
 
 func (c19) ID() string { return "C19" }
 func (c19) Rule() string {
-	return "systematic: (1) And/Or truth tables for every arity 0..3 x every assignment of constant leaf filters, Not x {T,F}; (2) every location of gen.Universe(L=5|6, arity<=3) as the single feature x every bound pair (l,u) in [-1,L+1]^2 incl. zero-length and reversed bounds x {Within,Overlap}, and x {ForwardStrand,ReverseStrand}; (3) the order axioms of LocationLess on a location universe (quick: Universe(4,3)+80 random = ~320, thorough: Universe(5,3)+60 random = ~620): one case per ordered pair (a,b) checking irreflexivity (a==b), asymmetry, and transitivity through every c of the universe, plus that a forward contiguous residue part that starts and ends before another is less. seeded: (4) tables of 0..8 features (keys {a,b,gene,source}, qualifier names {a,b,n,ab} incl. repeated names merged into multi-valued qualifiers, values {'',a,b,ab,ba,aab,c,n,a=b,=,b=a=n}, locations gen.RandLoc over 12 residues, both strands, joins/orders, nesting<=3, sites, ambiguous spans) x a filter expression: either a selector assembled from (key, 0..3 clauses (name, regexp)) with regexps {'',a,^a$,a|b,[ab]+,.,^$,b$,^ab,n,c,\\w,a\\.?b,\\bb,[ab]\\w*,a=b,=,b=,=a=|c} (backslash escapes that do not precede a '/'; regexps that hold '=' themselves) or a random And/Or/Not tree (depth<=3, arity 0..3) over Key, Qualifier, Selector, Within, Overlap, ForwardStrand, ReverseStrand and constant leaves; the filter is applied to every feature and through FeatureSlice.Filter; (5) insertion sequences of 0..9 features into an empty table through FeatureSlice.Insert only (20% source keys, locations from the universe and gen.RandLoc, many ties). Oracle: selector structure is known from assembly; accept iff key empty or equal and every clause holds (named+regexp: some value of that qualifier matches (regexp.MatchString); named only: the qualifier is present; unnamed: some value of any qualifier matches); And=all (true for none), Or=some (false for none), Not; Within = every part l<=Lo&&Hi<=u, Overlap = some part Lo<u&&l<Hi on the model's part spans, forward/reverse = every part on that strand; don't-cares evaluated under both readings and either accepted: zero-length sites (as zero-length spans / ignored), bounds with u<=l (swapped / denoting nothing). Filter == accepted features in table order, deep-equal, table unaltered. Insert: result multiset == old + new (deep-equal), no source after a non-source, no later non-source location LocationLess than an earlier one. Not generated (statement silent): an escaped slash '\\/', a trailing empty clause 'key/', qualifier entries without any value, tables holding two Props entries of the same name, invalid regexps. non-trivial: table non-empty and the filter is not a constant / pair of different locations / sequence of >=2 insertions; distinct: canonical case text."
+	return "systematic: (1) And/Or truth tables for every arity 0..3 x every assignment of constant leaf filters, Not x {T,F}; (2) every location of gen.Universe(L=5|6, arity<=3) as the single feature x every bound pair (l,u) in [-1,L+1]^2 incl. zero-length and reversed bounds x {Within,Overlap}, and x {ForwardStrand,ReverseStrand}; (3) the order axioms of LocationLess on a location universe (quick: Universe(4,3)+80 random = ~320, thorough: Universe(5,3)+60 random = ~620): one case per ordered pair (a,b) checking irreflexivity (a==b), asymmetry, and transitivity through every c of the universe, plus that a forward contiguous residue part that starts and ends before another is less. seeded: (4) tables of 0..8 features (keys {a,b,gene,source}, qualifier names {a,b,n,ab} incl. repeated names merged into multi-valued qualifiers, values {'',a,b,ab,ba,aab,c,n,a=b,=,b=a=n}, locations gen.RandLoc over 12 residues, both strands, joins/orders, nesting<=3, sites, ambiguous spans) x a filter expression: either a selector assembled from (key, 0..3 clauses (name, regexp)) with regexps {'',a,^a$,a|b,[ab]+,.,^$,b$,^ab,n,c,\\w,a\\.?b,\\bb,[ab]\\w*,a=b,=,b=,=a=|c} (backslash escapes that do not precede a '/'; regexps that hold '=' themselves) or a random And/Or/Not tree (depth<=3, arity 0..3) over Key, Qualifier, Selector, Within, Overlap, ForwardStrand, ReverseStrand and constant leaves; the filter is applied to every feature and through FeatureSlice.Filter; (5) insertion sequences of 0..9 features into an empty table through FeatureSlice.Insert only (20% source keys, locations from the universe and gen.RandLoc, many ties). Oracle: selector structure is known from assembly; accept iff key empty or equal and every clause holds (named+regexp: some value of that qualifier matches (regexp.MatchString); named only: the qualifier is present; unnamed: some value of any qualifier matches); And=all (true for none), Or=some (false for none), Not; Within = every part l<=Lo&&Hi<=u, Overlap = some part Lo<u&&l<Hi on the model's part spans, forward/reverse = every part on that strand; don't-cares evaluated under both readings and either accepted: zero-length sites (as zero-length spans / ignored), bounds with u<=l (swapped / denoting nothing). Filter == accepted features in table order, deep-equal, table unaltered. Insert: result multiset == old + new (deep-equal), no source after a non-source, no later non-source location LocationLess than an earlier one. The empty clause also stands last, closed by a slash ('key//'). Not generated (statement silent): an escaped slash '\\/', a bare trailing slash 'key/', qualifier entries without any value, tables holding two Props entries of the same name, invalid regexps. non-trivial: table non-empty and the filter is not a constant / pair of different locations / sequence of >=2 insertions; distinct: canonical case text."
 }
 
 func (c19) RequiredBuckets(tier string) []string {
@@ -49,7 +49,7 @@ func (c19) RequiredBuckets(tier string) []string {
 		}
 		out = append(out, op+"|true", op+"|false")
 	}
-	return append(out, "cli:select", "cli:select -v", "cli:select -s")
+	return append(out, "cli:select", "cli:select -v", "cli:select -s", "cli:select cache-on")
 }
 
 func (c19) Findings() []fw.Finding {
@@ -367,7 +367,14 @@ type c19Expr struct {
 func (e *c19Expr) selText() string {
 	s := e.key
 	for i, cl := range e.clauses {
-		s += cl.text(i == len(e.clauses)-1)
+		last := i == len(e.clauses)-1
+		if last && cl.kind == ckUnnamed && cl.re == "" && cl.spell == 1 && len(e.clauses)%2 == 1 {
+			// the empty clause in last place, closed by a slash ("key//"): the
+			// selector ends after it (a trailing slash opens no further clause).
+			s += "//"
+			continue
+		}
+		s += cl.text(last)
 	}
 	return s
 }
@@ -775,6 +782,11 @@ func c19GenFeat(r *rand.Rand, o gen.LocOpt) c19Feat {
 }
 
 func c19GenClause(r *rand.Rand) c19Clause {
+	if r.Intn(9) == 0 {
+		// the empty clause ("key//..."): no name, no regexp - some qualifier
+		// value must exist.
+		return c19Clause{kind: ckUnnamed, spell: 1}
+	}
 	cl := c19Clause{kind: r.Intn(3), spell: r.Intn(2)}
 	cl.name = c19Names[r.Intn(len(c19Names))]
 	if r.Intn(8) == 0 {
